@@ -350,6 +350,28 @@ theorem merge_loop_is_identity_when_apart (r : Rec) (rules : List RuleM) (cutoff
     mergeFix r rules cutoff fuel (sortByStart g) = .ok (sortByStart g) ∧ (sortByStart g).Perm g :=
   ⟨mergeFix_id_of_apart r rules cutoff fuel _ (h.of_perm (sortByStart_perm g).symm), sortByStart_perm g⟩
 
+/-- **`merge_over_origin` is the identity up to order when the protoclusters of each product stay apart**
+    (any record, any ruleset): if, after pairing every protocluster with its cutoff-extended core
+    (`withExtOf`), the protoclusters of each product are `Apart`, a successful `merge_over_origin` returns a
+    rearrangement of its input — grouped by product in order of first occurrence, each group sorted by the
+    start of the extended core, nothing merged. -/
+theorem merge_over_origin_is_identity_up_to_order_when_apart (r : Rec) (rules : List RuleM) (clusters merged : List PC)
+    (hap : ∀ withExt, withExtOf r rules clusters = .ok withExt → ∀ prod, Apart (withExt.filter (·.1.rule == prod)))
+    (h : Proto.mergeOverOrigin r rules clusters = .ok merged) : merged.Perm clusters :=
+  mergeOverOrigin_apart_perm r rules clusters merged hap h
+
+/-- … hence it does not depend on the order of the rules or of its input there: two successful calls on
+    rearranged inputs with two rulesets (e.g. a ruleset and a re-ordering of it), both apart, return
+    rearrangements of each other -/
+theorem merge_over_origin_rule_order_invariant_when_apart (r : Rec) (rules rules' : List RuleM)
+    (clusters clusters' merged merged' : List PC) (hp : clusters.Perm clusters')
+    (hap : ∀ withExt, withExtOf r rules clusters = .ok withExt → ∀ prod, Apart (withExt.filter (·.1.rule == prod)))
+    (hap' : ∀ withExt, withExtOf r rules' clusters' = .ok withExt → ∀ prod, Apart (withExt.filter (·.1.rule == prod)))
+    (h : Proto.mergeOverOrigin r rules clusters = .ok merged) (h' : Proto.mergeOverOrigin r rules' clusters' = .ok merged') :
+    merged.Perm merged' :=
+  ((mergeOverOrigin_apart_perm r rules clusters merged hap h).trans hp).trans
+    (mergeOverOrigin_apart_perm r rules' clusters' merged' hap' h').symm
+
 /-- **The only sanctioned cross-rule effect, definition-domain side** (`strip_inferior_domains`): the
     domains recorded for (gene, rule) are removed exactly when the gene also has an entry for one of the
     rule's superiors -/
@@ -1029,5 +1051,15 @@ example :
   simp only [List.mem_singleton] at hy
   subst hy
   exact ⟨by decide, by decide⟩
+
+/-- non-vacuity of `merge_over_origin_is_identity_up_to_order_when_apart`: two protoclusters of rule `r1`
+    (cutoff 20 kb) 40 kb apart and one of `r2` on a linear record come back grouped by product, sorted by start -/
+example :
+    let rec0 : Rec := ⟨200000, false, []⟩
+    let rules := [d1Rule "r1" 20000, d1Rule "r2" 2000]
+    let pc := fun (n : String) (lo hi : Int) => (⟨n, .simple ⟨lo, hi, .fwd⟩, .simple ⟨lo - 1000, hi + 1000, .fwd⟩⟩ : PC)
+    ((Proto.mergeOverOrigin rec0 rules [pc "r1" 90000 91000, pc "r2" 10000 11000, pc "r1" 49000 50000]).toOption.map
+      fun l => l.map fun p => (p.rule, p.core.start)) = some [("r1", 49000), ("r1", 90000), ("r2", 10000)] := by
+  decide +kernel
 
 end ASV.C07
